@@ -238,7 +238,9 @@ func solveAll(dir string, vcs []*VC, timeoutS int, all bool, workers int) []*obR
 					if splitFirst[it.Name] && len(j.vc.splitVars) > 0 {
 						return solveResult{Status: "unknown"}
 					}
-					return solveWith(solvers2, dir, fmt.Sprintf("q%04d.s2", k), q, to2, false)
+					// all configurations, longer limit (a loaded machine makes the
+					// first stage time out on obligations that are proved in seconds)
+					return solveWith(append(append([]solverSpec{}, solvers2...), solvers...), dir, fmt.Sprintf("q%04d.s2", k), q, to2, false)
 				}(); r2.Status == "unsat" {
 					r2.Time += r.Time
 					r = r2
@@ -274,7 +276,7 @@ func solveAll(dir string, vcs []*VC, timeoutS int, all bool, workers int) []*obR
 							cq := j.vc.query(j.index, "(assert (and "+strings.Join(lits, " ")+"))\n")
 							c1 := solve(dir, fmt.Sprintf("q%04d.c%d", k, m), cq, to, false)
 							if c1.Status != "unsat" {
-								c2 := solveWith(solvers2, dir, fmt.Sprintf("q%04d.c%d.s2", k, m), cq, to2, false)
+								c2 := solveWith(append(append([]solverSpec{}, solvers2...), solvers...), dir, fmt.Sprintf("q%04d.c%d.s2", k, m), cq, to2, false)
 								c2.Time += c1.Time
 								c1 = c2
 							}
